@@ -240,7 +240,13 @@ func checkC09(c *hx.Checker) {
 			jobs = append(jobs, newJob("ReduceMin", []hx.Attr{hx.AInts("axes", 0, e)}, []*ref.T{d}, nil, bad, hx.DError, hx.Bits, rt, nil, fmt.Sprintf("axes=[0 %d]", e), "extreme-int"))
 		}
 	}
-	jobs = append(jobs, newJob("ArgMax", []hx.Attr{hx.AInt("select_last_index", 1)}, []*ref.T{ref.Distinct(ref.F32, []int{2, 2})}, nil, ref.Invalid("select_last_index unsupported"), hx.DError, hx.Bits, "op", nil, "select_last_index=1"))
+	{
+		// select_last_index=1 is not implemented today (refused); with pairwise distinct values first and last
+		// occurrence coincide, so an implementation that honours it must return the same indices: computed right or refused
+		d := ref.Distinct(ref.F32, []int{2, 2})
+		e, err := ref.ArgMax(d, 0, true)
+		jobs = append(jobs, newJob("ArgMax", []hx.Attr{hx.AInt("select_last_index", 1)}, []*ref.T{d}, []*ref.T{e}, err, hx.DRefuse, hx.Bits, "op", nil, "select_last_index=1"))
+	}
 	// ---------------- ReduceMax / ReduceMin
 	for _, op := range []string{"ReduceMax", "ReduceMin"} {
 		for _, dt := range gateDTs(op, 0) {
